@@ -554,7 +554,9 @@ class Ctx:
         m = None
         if r == z3.unknown and not uses_arrays(self.pc + [prop]):
             from .smtlib import cvc5_check
-            v, m2, _ = cvc5_check(self.pc + [z3.Not(prop)], timeout_s=self.ex.timeout_ms / 1000.0)
+            # the per-query cap of the harness is meant for z3's incremental mode; the fall-back solvers get what they need
+            # (a loaded machine made cvc5 miss a 4 s cap once, and the run ended inconclusive on the unchanged tree)
+            v, m2, _ = cvc5_check(self.pc + [z3.Not(prop)], timeout_s=max(self.ex.timeout_ms / 1000.0, 90.0))
             self.ex.second_solver_queries = getattr(self.ex, 'second_solver_queries', 0) + 1
             if v == 'unsat':
                 r = z3.unsat
@@ -562,13 +564,20 @@ class Ctx:
                 r = z3.sat
                 m = m2
             else:
-                s2 = z3.SolverFor('QF_BV')
-                s2.set('timeout', max(self.ex.timeout_ms, 120000))
-                s2.add(*self.pc)
-                s2.add(z3.Not(prop))
-                r = s2.check()
-                if r == z3.sat:
-                    m = s2.model()
+                for attempt, seed2 in enumerate((0, 7)):
+                    s2 = z3.SolverFor('QF_BV')
+                    s2.set('timeout', max(self.ex.timeout_ms, 240000))
+                    try:
+                        s2.set('random_seed', seed2)
+                    except Exception:
+                        pass
+                    s2.add(*self.pc)
+                    s2.add(z3.Not(prop))
+                    r = s2.check()
+                    if r == z3.sat:
+                        m = s2.model()
+                    if r != z3.unknown:
+                        break
         elif r == z3.unknown:
             self.ex.solver.set('timeout', self.ex.timeout_ms)
             r = self.ex.check(z3.Not(prop))
